@@ -252,8 +252,12 @@ def generate(ctx):
 
 
 def run(ctx) -> int:
+    import time
+    T = {}
+    t0 = time.time()
     generate(ctx)
     info = ctx.coq_props()
+    T["coq_props"] = round(time.time() - t0, 1); t0 = time.time()
     if not info["ok"]:
         ctx.report("coq:" + str(info["failed"]), "proof-broken", "coq/C08/Props.v",
                    {"failed": info["failed"], "log": info["log"][-3000:]}, found_input=False)
@@ -270,6 +274,7 @@ def run(ctx) -> int:
     by_id = {p["id"]: p for p in progs}
 
     recs = run_impl(ctx, [{"id": p["id"], "src": p["src"]} for p in progs])
+    T["impl"] = round(time.time() - t0, 1); t0 = time.time()
 
     # ---- model vs implementation
     todo = []
@@ -289,6 +294,7 @@ def run(ctx) -> int:
                 continue
             todo.append(((r["id"], k), inst))
     obs = eval_instances(ctx, todo)
+    T["model_eval"] = round(time.time() - t0, 1); t0 = time.time()
     n_diff = 0
     samples = []
     nontrivial = 0
@@ -365,6 +371,7 @@ def run(ctx) -> int:
         ctx.report(KEY_DEAD, "counterexample", "literal reading of the property (no control-flow path reaches code after a jump)",
                    {"program": dead_dev[0], "expected": "accepted", "observed": dead_dev[1], "replay": replay_cmd(dead_dev[0])})
 
+    T["compare_and_spec"] = round(time.time() - t0, 1)
     cov = proof_coverage(
         info, "cd /verif/coq && make -f Makefile.C08 C08/Props.vo",
         ["Coq 8.16.1 kernel", "C09's theorems (imported, re-checked in this build)",
@@ -373,6 +380,7 @@ def run(ctx) -> int:
         evaluations=len(obs) + spec_stats["agree"] + spec_stats["either"] + spec_stats["DISAGREE"],
         distinct_nontrivial={"count": nontrivial, "rule": "check_cfg instances with >= 4 basic blocks compared model vs implementation"},
         correspondence=stats, specification=spec_stats, samples=samples,
+        phase_seconds=T,
         cases={"plain": n_plain, "const": n_const, "corpus": len([p for p in progs if p["group"] == "corpus"])},
     )
     return ctx.finish(LEVEL, cov, info.get("axioms", []))
